@@ -267,14 +267,19 @@ func oneRun(out *hx.Out, w *world, seed, c uint64) {
 
 	slotStart := w.netCfg.Beacon.GetSlotStartTime(phase0.Slot(slot))
 	height := specqbft.Height(slot)
-	var pending []*spectypes.SSVMessage
+	// a broadcast and the peers it has not reached yet
+	type item struct {
+		m    *spectypes.SSVMessage
+		left []spectypes.OperatorID
+	}
+	var pending []*item
 	emit := func(o *op) {
 		for _, m := range o.net.take() {
 			if o.silent || (o.crashAt >= 0 && o.sent >= o.crashAt) {
 				continue
 			}
 			o.sent++
-			pending = append(pending, m)
+			pending = append(pending, &item{m: m, left: append([]spectypes.OperatorID{}, ids...)})
 		}
 	}
 	for _, id := range ids {
@@ -285,8 +290,10 @@ func oneRun(out *hx.Out, w *world, seed, c uint64) {
 	round := uint64(1)
 	allAccepted := true
 	for ; round <= 6; round++ {
-		// deliver everything of this round (messages produced while delivering belong to the same round)
-		for guard := 0; len(pending) > 0 && guard < 4000; guard++ {
+		// deliver everything of this round (messages produced while delivering belong to the same round).
+		// In-order runs hand each broadcast to all peers at once; otherwise every (broadcast, peer) pair is
+		// delivered on its own, so that different peers see different orders.
+		for guard := 0; len(pending) > 0 && guard < 40000; guard++ {
 			k := 0
 			if !inOrder {
 				k = r.Intn(len(pending))
@@ -294,8 +301,19 @@ func oneRun(out *hx.Out, w *world, seed, c uint64) {
 					k = r.Intn(6)
 				}
 			}
-			m := pending[k]
-			pending = append(pending[:k:k], pending[k+1:]...)
+			it := pending[k]
+			var to []spectypes.OperatorID
+			if inOrder {
+				to, it.left = it.left, nil
+			} else {
+				j := r.Intn(len(it.left))
+				to = []spectypes.OperatorID{it.left[j]}
+				it.left = append(it.left[:j:j], it.left[j+1:]...)
+			}
+			if len(it.left) == 0 {
+				pending = append(pending[:k:k], pending[k+1:]...)
+			}
+			m := it.m
 			sm := &specqbft.SignedMessage{}
 			_ = sm.Decode(m.Data)
 			if round == 1 && withholdProposal && sm.Message.MsgType == specqbft.ProposalMsgType {
@@ -310,8 +328,8 @@ func oneRun(out *hx.Out, w *world, seed, c uint64) {
 			// reception time inside the round's window
 			off := w.roundStart(role, round) + time.Duration(hx.Pick(r, 1, 50, 99))*w.roundLen(round)/100
 			recv := slotStart.Add(off)
-			out.Op("VALIDATE", "round=%d at=%dms %s", round, off.Milliseconds(), describe(m))
-			for _, id := range ids {
+			out.Op("VALIDATE", "round=%d at=%dms to=%v %s", round, off.Milliseconds(), to, describe(m))
+			for _, id := range to {
 				o := ops[id]
 				_, _, err := validation.VerifValidateSSVMessage(o.val, m, recv)
 				class, text := classify(err)
